@@ -332,6 +332,9 @@ Section C16.
   Definition c16_out : path := [[111; 117; 116]].
   Definition c16_fs0 : fs := [(c16_out, Dir)].
   Definition c16_content (i : nat) : bytes := [N.of_nat i; 1; 2; 3].
+  (* members whose name length is a multiple of 3 are EMPTY files (harness: cli.rs member_content_for) *)
+  Definition c16_content_for (name : bytes) (i : nat) : bytes :=
+    if (len name mod 3 =? 0) then [] else c16_content i.
   Fixpoint join_path (p : path) : bytes :=
     match p with [] => [] | [c] => c | c :: r => c ++ 47 :: join_path r end.
   Fixpoint dedup_paths (l : list path) (seen : list path) : list path :=
@@ -353,7 +356,7 @@ Section C16.
     | h :: t => if bytes_leb (fst e) (fst h) then e :: l else h :: ins_row e t
     end.
   Definition c16_run (_ : consts) (form : N) (names : list bytes) (order : list N) (listed : N) : list (list N) :=
-    let member i := (nth i names [], c16_content i) in
+    let member i := (nth i names [], c16_content_for (nth i names []) i) in
     let '(f, ok) :=
       if form =? 0 then
         extract_linear c16_out names (map (fun i => member (N.to_nat i)) order) c16_fs0
@@ -385,7 +388,7 @@ Section C16.
         (sorted (flat_map (fun e => match snd e with Link _ => [(fst e, [])] | _ => [] end) ns)).
   Definition c16sl_extract (form : N) (names : list bytes) (order : list N) (listed : N) (f0 : fs)
     : fs * bool :=
-    let member i := (nth i names [], c16_content i) in
+    let member i := (nth i names [], c16_content_for (nth i names []) i) in
     if form =? 0 then
       extract_linear c16_out names (map (fun i => member (N.to_nat i)) order) f0
     else if form =? 1 then
